@@ -42,13 +42,17 @@ class EngineTheory(Theory):
     def mk_param(self, ex, st, n, sort, sub):
         if sort == 'YP':
             return SV('YP', None)
-        if sort in REF_SORTS or sort in ('Fn', 'GenHandle'):
+        if sort in REF_SORTS or sort in ('Fn', 'OptFn', 'GenHandle'):
             e = ex.fresh('Int', n)
             if sort == 'GenHandle':
                 return SV('Iter', e, {'nondet': True})
             return SV(sort, e)
         if sort == 'Any':
             return SV('Any', ex.fresh('Int', n))
+        if sort == 'OptInt':
+            return SV('OptInt', ex.fresh('Int', n), {'none': ex.fresh('Bool', n + '_is_none')})
+        if sort == 'UserFn':
+            return SV('Fn', ex.fresh('Int', n), {'user': True})
         return None
 
     def on_entry(self, ex, st):
@@ -100,8 +104,8 @@ class EngineTheory(Theory):
         st.assume('(forall ((a Int)) (! (=> (< a %s) (= (select %s a) (select %s a))) :pattern ((select %s a))))'
                   % (old['nextref'], st.comp['avalues'], old['avalues'], st.comp['avalues']))
         # lists this activation holds privately (unpublished, below the old counter) are not reachable by anyone else
-        st.assume('(forall ((r Int)) (! (=> (and (< r %s) (not (select %s r))) (and (not (select %s r)) (= (select %s r) (select %s r)))) :pattern ((select %s r))))'
-                  % (old['nextref'], old['published'], st.comp['published'], st.comp['lists'], old['lists'], st.comp['lists']))
+        st.assume('(forall ((r Int)) (! (=> (and (< r %s) (not (select %s r))) (and (not (select %s r)) (= (select %s r) (select %s r)))) :pattern ((select %s r)) :pattern ((select %s r))))'
+                  % (old['nextref'], old['published'], st.comp['published'], st.comp['lists'], old['lists'], st.comp['lists'], st.comp['published']))
         st.assume('(forall ((r Int)) (! (=> (>= r %s) (not (select %s r))) :pattern ((select %s r))))'
                   % (st.comp['nextref'], st.comp['published'], st.comp['published']))
         st.assume('(forall ((k Key)) (! (< (select %s k) %s) :pattern ((select %s k))))'
@@ -124,6 +128,11 @@ class EngineTheory(Theory):
     def truthy(self, ex, v):
         if v.sort == 'OptFn':
             return NOT(EQ(v.e, '(- 1)'))
+        if v.sort == 'Any' and v.meta.get('yielded'):
+            # C20 (i): a value yielded by a predicate iterator must never decide a branch
+            from .core import Obligation
+            ex.obls.append(Obligation('%s.%s.interface.yielded_value_not_inspected[-]' % (ex.modname, ex.qualname), [], 'false', 'post'))
+            return ex.fresh('Bool', 'inspected')
         return None
 
     def is_none(self, ex, other, st):
@@ -133,6 +142,8 @@ class EngineTheory(Theory):
             return 'false'
         if other.sort == 'OptInt':
             return other.meta['none']
+        if other.sort == 'Any':
+            return None
         return None
 
     def coerce(self, ex, a, want, st):
@@ -231,6 +242,9 @@ class EngineTheory(Theory):
                 raise OutOfSubset('storing %s in the predicate store' % v.sort, node)
             st.comp['pstore'] = '(store %s %s %s)' % (st.comp['pstore'], key, v.e)
             st.comp['published'] = '(store %s %s true)' % (st.comp['published'], v.e)
+            return [(st, None)]
+        if base.sort == 'ECtx' and idx.sort == 'Str' and v.sort in ('Fn', 'OptFn'):
+            st.comp['ectx'] = '(store %s %s %s)' % (st.comp['ectx'], idx.e, v.e)
             return [(st, None)]
         if base.sort == 'FList':
             # in-place element assignment: ownership obligation
@@ -347,12 +361,35 @@ class EngineTheory(Theory):
             return [(st, SV('Term', '(TVar %s)' % v))]
         if name == 'list' and len(args) == 1 and args[0].sort == 'TList':
             return [(st, args[0])]
+        if name == 'compile' and len(args) == 3:
+            # external: compiles text, may raise (SyntaxError, ValueError, ...)
+            return [(st, SV('CodeObj', None)), (st.fork().tag('compile.raises'), Exc('UserException'))]
+        if name == 'exec' and len(args) == 2 and args[0].sort == 'CodeObj' and args[1].sort == 'Dict' and isinstance(e.args[1], ast.Name):
+            # external (A-EXT-EXEC): runs the code with the dict as globals: the dict contents afterwards are arbitrary;
+            # the engine state is reachable only through the API functions in that dict (same rely as at a yield)
+            ok = st.fork().tag('exec.ok')
+            ok.env[e.args[1].id] = SV('Dict', ex.fresh('(Array String Int)', 'new_context'))
+            bad = st.fork().tag('exec.raises')
+            return [(ok, NONE), (bad, Exc('UserException'))]
         if name == 'YPException':
             return [(st, SV('Exc', 'YPException'))]
         if name == 'hasattr' and len(args) == 2:
             return [(st, SV('Bool', 'true' if args[0].sort == 'Iter' else ex.fresh('Bool', 'hasattr')))]
-        if name == 'dict' or name == 'len':
-            return None
+        return None
+
+    def call_name_ast(self, ex, e, st):
+        # len(inspect.signature(func).parameters): number of positional parameters (A-EXT-INSPECT)
+        if isinstance(e.func, ast.Name) and e.func.id == 'len' and len(e.args) == 1:
+            a = e.args[0]
+            if isinstance(a, ast.Attribute) and a.attr == 'parameters' and isinstance(a.value, ast.Call) \
+                    and ast.unparse(a.value.func) == 'inspect.signature' and len(a.value.args) == 1:
+                outs = []
+                for st2, f in ex.eval(a.value.args[0], st):
+                    if isinstance(f, Exc):
+                        outs.append((st2, f))
+                    else:
+                        outs.append((st2, SV('Int', '(nparams %s)' % f.e)))
+                return outs
         return None
 
     def ev_Dict(self, ex, e, st):
@@ -380,17 +417,21 @@ class EngineTheory(Theory):
                 return [(st, SV('OptFn', ITE('(>= %s 0)' % r, r, d.e)))]
             if d.sort == 'None':
                 return [(st, SV('OptFn', r))]
+        if base.sort == 'ECtx' and meth == 'copy' and not args:
+            return [(st, SV('Dict', st.comp['ectx']))]
+        if base.sort == 'Dict' and meth == 'items' and not args:
+            return [(st, SV('DictItems', base.e))]
         if base.sort == 'FList' and meth in ('append', 'insert'):
             ex.oblige(st, 'ownership.mutated_list_is_unpublished', NOT('(select %s %s)' % (st.comp['published'], base.e)), 'frame')
             seq = '(select %s %s)' % (st.comp['lists'], base.e)
-            if meth == 'append' and len(args) == 1 and args[0].sort == 'Answer':
+            if meth == 'append' and len(args) == 1 and args[0].sort in ('Answer', 'Any'):
                 st.comp['lists'] = '(store %s %s (seq.++ %s (seq.unit %s)))' % (st.comp['lists'], base.e, seq, args[0].e)
                 return [(st, NONE)]
             if meth == 'insert' and len(args) == 2 and args[0].e == '0' and args[1].sort == 'Answer':
                 st.comp['lists'] = '(store %s %s (seq.++ (seq.unit %s) %s))' % (st.comp['lists'], base.e, args[1].e, seq)
                 return [(st, NONE)]
         if base.sort == 'PyList' and meth == 'append' and not base.meta['items'] and isinstance(e.func.value, ast.Name) \
-                and len(args) == 1 and args[0].sort == 'Answer':
+                and len(args) == 1 and args[0].sort in ('Answer', 'Any'):
             # the empty literal turns out to be a clause list
             lst = self.new_list(ex, st, '(seq.unit %s)' % args[0].e)
             st.env[e.func.value.id] = lst
@@ -412,9 +453,10 @@ class EngineTheory(Theory):
                 return [(st, SV('Int', st.comp['rlimit']))]
             if meth == 'setrecursionlimit' and len(args) == 1 and args[0].sort == 'Int':
                 # CPython raises (ValueError/RecursionError) for a limit that is too low: the limit is then unchanged
-                ok = st.fork().tag('setlimit.ok')
+                # CPython: raises RecursionError iff the new limit is not above the current depth (ghost rdepth)
+                ok = st.fork().assume('(> %s rdepth)' % args[0].e).tag('setlimit.ok')
                 ok.comp['rlimit'] = args[0].e
-                bad = st.tag('setlimit.raises')
+                bad = st.assume('(<= %s rdepth)' % args[0].e).tag('setlimit.raises')
                 return [(ok, NONE), (bad, Exc('RecursionError'))]
         return None
 
@@ -519,18 +561,22 @@ class EngineTheory(Theory):
 
     def nd_next(self, ex, st, h):
         outs = []
+        cnt0 = ex.fresh('Int', 'cnt')
+        st.assume(EQ(cnt0, '(select %s %s)' % (st.comp['hcnt'], h.e)))
         a = st.fork().tag('answer')
         self.nd_step_effects(ex, a)
         a.comp['ist'] = '(store %s %s SUSP)' % (a.comp['ist'], h.e)
-        a.comp['hcnt'] = '(store %s %s (+ (select %s %s) 1))' % (a.comp['hcnt'], h.e, a.comp['hcnt'], h.e)
+        a.comp['hcnt'] = '(store %s %s (+ %s 1))' % (a.comp['hcnt'], h.e, cnt0)
         outs.append((a, SV('Any', ex.fresh('Int', 'yielded'), {'yielded': True})))
         b = st.fork().tag('stop')
         self.nd_step_effects(ex, b)
         b.comp['ist'] = '(store %s %s DONE)' % (b.comp['ist'], h.e)
+        b.comp['hcnt'] = '(store %s %s %s)' % (b.comp['hcnt'], h.e, cnt0)
         outs.append((b, Exc('StopIteration')))
         c = st.fork().tag('raises')
         self.nd_step_effects(ex, c)
         c.comp['ist'] = '(store %s %s DONE)' % (c.comp['ist'], h.e)
+        c.comp['hcnt'] = '(store %s %s %s)' % (c.comp['hcnt'], h.e, cnt0)
         outs.append((c, Exc('UserException')))
         d = c.fork()
         d.trace[-1] = 'raises_recursion'
@@ -567,7 +613,54 @@ class EngineTheory(Theory):
         if v.sort == 'PyList' and not v.meta['items']:
             k.normal(st)
             return True
+        if v.sort == 'DictItems':
+            self.for_dict_items(ex, s, v, st, k)
+            return True
         return False
+
+    def for_dict_items(self, ex, s, d, st, k):
+        """for key, value in <dict>.items(): every present key exactly once (order irrelevant to the invariant).
+        Ghost: the set P of processed keys."""
+        n, spec = ex.loop_spec(s)
+        if spec is None:
+            raise OutOfSubset('loop %d of %s has no invariant in the sidecar contract' % (n, ex.qualname), s)
+        if not (isinstance(s.target, ast.Tuple) and len(s.target.elts) == 2 and all(isinstance(t, ast.Name) for t in s.target.elts)):
+            raise OutOfSubset('for target over items()', s)
+        kn, vn = s.target.elts[0].id, s.target.elts[1].id
+        mods = ex.assigned_names(s.body) | {kn, vn}
+        P0 = '((as const (Array String Bool)) false)'
+
+        def check(st2, P, tag):
+            for j, inv in enumerate(spec.inv):
+                ex.oblige(st2.fork().tag(tag), 'loop%d.inv%d' % (n, j), ex.fmt(inv, st2, {'P': P, 'dict': d.e}), 'inv')
+
+        check(st, P0, 'loop%d.init' % n)
+        sti = st.fork().tag('loop%d.iter' % n)
+        ex.havoc_comp(sti)
+        ex.havoc_locals(sti, mods)
+        self._heap_invariants(ex, sti)
+        P = ex.fresh('(Array String Bool)', 'P')
+        for inv in spec.inv:
+            sti.assume(ex.fmt(inv, sti, {'P': P, 'dict': d.e}))
+        key = ex.fresh('String', 'k')
+        sti.assume('(>= (select %s %s) 0)' % (d.e, key))
+        sti.assume(NOT('(select %s %s)' % (P, key)))
+        sti.env[kn] = SV('Str', key)
+        sti.env[vn] = SV('Fn', '(select %s %s)' % (d.e, key))
+        P2 = '(store %s %s true)' % (P, key)
+        kb = k.with_(normal=lambda st2: check(st2, P2, 'preserve'), cont=lambda st2: check(st2, P2, 'preserve'),
+                     brk=lambda st2: k.normal(st2.tag('loop%d.break' % n)))
+        ex.exec_block(s.body, sti, kb)
+        ste = st.fork().tag('loop%d.exit' % n)
+        ex.havoc_comp(ste)
+        ex.havoc_locals(ste, mods)
+        self._heap_invariants(ex, ste)
+        Pe = ex.fresh('(Array String Bool)', 'P')
+        for inv in spec.inv:
+            ste.assume(ex.fmt(inv, ste, {'P': Pe, 'dict': d.e}))
+        ste.assume('(forall ((x String)) (! (=> (>= (select %s x) 0) (select %s x)) :pattern ((select %s x))))' % (d.e, Pe, Pe))
+        ste.assume('(forall ((x String)) (! (=> (select %s x) (>= (select %s x) 0)) :pattern ((select %s x))))' % (Pe, d.e, Pe))
+        k.normal(ste)
 
     def loop_invs(self, ex, spec):
         return list(spec.inv) if spec is not None else []
@@ -642,6 +735,9 @@ class EngineTheory(Theory):
         mods = ex.assigned_names(s.body)
         outer_active = tuple(st.ghost.get('active', ()))
         active = outer_active + (h.e,)
+        st.ghost['loop%d_it' % n] = h.e
+        for cn, _ in ex.comps:
+            st.ghost['loop%d_pre_%s' % (n, cn)] = st.comp[cn]
 
         def check(st2, tag):
             for j, inv in enumerate(invs):
@@ -664,8 +760,13 @@ class EngineTheory(Theory):
         assume(sth)
         sth.ghost['active'] = active
 
+        # the loop owns (and on exit finalises) its iterator only if nothing else references it: an
+        # iterator that is held in a variable or was passed in stays suspended when the loop is left
+        loop_owns = not isinstance(s.iter, ast.Name)
+
         def drop(st2):
-            self.nd_close(ex, st2, h)
+            if loop_owns:
+                self.nd_close(ex, st2, h)
             st2.ghost['active'] = outer_active
             return st2
 
@@ -781,6 +882,8 @@ class EngineTheory(Theory):
         return OR(take, skip)
 
     def on_raise(self, ex, st, exc):
+        for j, t in enumerate(ex.c.ghost.get('exc_ensures', [])):
+            ex.oblige(st.fork().tag('raise:' + exc.cls), 'raises.ensures%d' % j, ex.fmt(t, st), 'post')
         if ex.is_gen and ex.c.kind == 'gen':
             st = st.fork().tag('exit:raise:' + exc.cls)
             ex.oblige(st, 'exit.all_iterators_finalised', self.q_formula(ex, st, ()), 'post')
@@ -803,6 +906,37 @@ class EngineTheory(Theory):
                             outs.append((st3, self.new_list(ex, st3, '(sremove (select %s %s) %s)' % (st3.comp['lists'], lst.e, x.e))))
                         else:
                             raise OutOfSubset('filter comprehension over %s' % lst.sort, e)
+                return outs
+        # [expr for r in <nondeterministic iterator>] with r unused: one element per answer, in order; the
+        # iterator is exhausted afterwards
+        if not g.ifs and not any(isinstance(x, ast.Name) and x.id == var for x in ast.walk(e.elt)):
+            outs = []
+            for st2, it in ex.eval(g.iter, st):
+                if isinstance(it, Exc):
+                    outs.append((st2, it))
+                    continue
+                if not (it.sort == 'Iter' and it.meta.get('nondet')):
+                    outs = None
+                    break
+                # the element expression is evaluated once per answer in an arbitrary state: its safety obligations
+                probe = st2.fork().tag('comprehension.element')
+                self.nd_step_effects(ex, probe)
+                for st3, v in ex.eval(e.elt, probe):
+                    if isinstance(v, Exc):
+                        outs.append((st3, v))
+                    elif v.sort != 'Term':
+                        raise OutOfSubset('comprehension element of sort %s' % v.sort, e)
+                done = st2.tag('comprehension.exhausted')
+                self.nd_step_effects(ex, done)
+                done.comp['ist'] = '(store %s %s DONE)' % (done.comp['ist'], it.e)
+                coll = ex.fresh('TList', 'collected')
+                done.ghost['__collected'] = coll
+                outs.append((done, SV('TList', coll)))
+                for cls in ('UserException', 'RecursionError'):
+                    b = done.fork()
+                    b.trace[-1] = 'comprehension.raises:' + cls
+                    outs.append((b, Exc(cls)))
+            if outs is not None:
                 return outs
         # [f(a, m) for a in L] with f a state-threading callee that has a fold specification
         if not g.ifs and isinstance(e.elt, ast.Call) and isinstance(e.elt.func, ast.Name) and e.elt.args \
@@ -838,7 +972,9 @@ class EngineTheory(Theory):
                             raise OutOfSubset('exception inside an f-string', e)
                         if x.sort == 'Str':
                             nxt.append((st3, acc + [x.e]))
-                        elif x.sort == 'Int':
+                        elif x.sort in ('Int', 'OptInt'):
+                            if x.sort == 'OptInt':
+                                ex.oblige(st3, 'safety.fstring_not_none', NOT(x.meta['none']), 'safety')
                             ex.oblige(st3, 'safety.fstring_int_nonneg', '(>= %s 0)' % x.e, 'safety')
                             nxt.append((st3, acc + ['(str.from_int %s)' % x.e]))
                         else:
